@@ -291,6 +291,9 @@ def build(tier, seed):
     obs.append(vprop.fn_ob("C01", cs["append"], {}, call=lambda ns, a: ns["_append_circuit"](a["other"], a["circuit"]), setup=setup_two, overrides=cmodel.overrides(), fallback=fbn,
                            obid="C01.append_circuit.all_lengths.contract", replay_code=cmodel.replay("append"), timeout_ms=30000,
                            desc="for circuits of ANY length: c1 + c2 has the operations of c1 followed by those of c2 and the larger register width"))
+    from props import C01append
+    obs.extend(C01append.build(fbn))
+    obs.extend(C01append.build_size(fbn))
     obs.append(vprop.enum_ob("C01.native.enum", FNL + FNC, lambda: range(8), _check_native,
                              "bounded: native numeric path - random gates on random placements vs the element-wise definition (n<=5, arity<=4), built-in circuits incl. H, "
                              "the same wrapped gates with equal parameters used twice in one process, SymbolicSimulator vs to_unitary; concatenation of all pairs from a pool incl. operation-less "
